@@ -82,7 +82,7 @@ class C02(HistoryCheck):
     ANY_EXTRA = [["tuple", [["leaf", {"p": 2}], 1]], ["tuple", [["list", [["leaf", {}]]], "s"]],
                  ["list", [["leaf", {"q": "z"}], ["tuple", [["leaf", {"p": 5}]]]]], ["dict", [["a", ["tuple", [["kitem", {"k": "a"}]]]]]]]
     # the property quantifies over "transforms that return new objects": functions handing back their input are out
-    OPGEN = {"p_bad": 0.1, "p_inplace": 0.2, "exclude_fns": ["ident", "missing", "rev", "tolist"], "p_alias": 0.4, "any_extra": ANY_EXTRA,
+    OPGEN = {"p_bad": 0.1, "p_inplace": 0.2, "exclude_fns": ["ident", "missing"], "p_alias": 0.4, "any_extra": ANY_EXTRA,
              "weights": {"new": 2, "scalar": 6, "element": 8, "toplevel": 3, "set": 3, "del": 1, "get": 3,
                          "deepcopy": 2.5, "mutate": 0}}
     N_OPS = {"quick": (5, 14), "thorough": (8, 24)}
